@@ -29,6 +29,7 @@ TUS = ["src/bls12_381/fq.cpp", "src/bls12_381/fr.cpp", "src/bls12_381/fq2.cpp", 
 GROUPS = {
     "C01": [r"^(var|record|typedef) bls12_381::(bls_x|generator_pairing|G2Prepared|AffinePair|PreparedPair|MillerTriple|num_coeffs)", r"bls12_381::miller_loop\(", r"bls12_381::exp_by_x_restrict", r"bls12_381::pairing[ <(]", r"G2Prepared::prepare"],
     "C02": [r"^(var|record|typedef) core::", r"^(var|record|typedef) bls12_381::(Fq|Fr)\b", r"core::BigInt<", r"core::FpBase<", r"core::Fp<", r"core::fp_inverse", r"core::exponentiate", r"bls12_381::Fq::", r"bls12_381::Fr::"],
+    "C03": [r"^(var|record|typedef) core::", r"core::BigInt<", r"core::FpBase<", r"core::Fp<"],
     "C06": [r"^(var|record|typedef) bls12_381::(Wnaf|PowersOfX|g1_|g2_|fr_p_value|bls_x|G1\b|G2\b)", r"WnafScalar<", r"WnafTable<", r"wnaf_table_multiply", r"wnaf_multiply", r"multiply_doubleadd", r"multiply_wnaf",
             r"curve_fast_multiply|floordiv_by_fr_p_value|decompose_lambda|G1::endomorphism|G1::multiply|G2::frobenius_map|G2::multiply|fq2_multiply_by_u|fq2_multiply_frobenius",
             r"div_exp_coeff", r"PowersOfX::decompose", r"BigInt<.*divide"],
